@@ -18,3 +18,4 @@ python3 "$(dirname "$0")/../vx/bounded.py" loaderseq quick >/dev/null 2>&1 || tr
 python3 "$(dirname "$0")/../vx/bounded.py" serverschema quick >/dev/null 2>&1 || true
 python3 "$(dirname "$0")/../vx/bounded.py" exports quick >/dev/null 2>&1 || true
 python3 "$(dirname "$0")/../vx/bounded.py" introspect quick >/dev/null 2>&1 || true
+python3 "$(dirname "$0")/../vx/bounded.py" optype quick >/dev/null 2>&1 || true
